@@ -188,13 +188,20 @@ def rule_f(repo, chk):
     ok = [norm(x) for x in effective_body(s)] == ['return string.startswith(like_name)']
     chk.ob('C04.f', ok, s, '_start_match is string.startswith(like_name)')
     z = repo.find(HELP, '_fuzzy_match')
-    txt = [norm(x) for x in z.body]
-    ok = any('string.find(like_name[0])' in t for t in txt) and any('_fuzzy_match(string[pos + 1:], like_name[1:])' in t for t in txt) and \
-        any('return False' in t for t in txt)
+    txt = [norm(x) for x in ast.walk(z) if isinstance(x, ast.stmt)]
+    # subsequence match, as a loop (or, before fix, a recursion): find the first character, go on in the remainder with the rest of the
+    # fragment; a character that is not found ends it with False; the last character is a containment test
+    rec = any(isinstance(x, ast.Call) and isinstance(x.func, ast.Name) and x.func.id == '_fuzzy_match' for x in ast.walk(z))
+    step = any('string.find(like_name[0])' in t for t in txt) and \
+        (any('_fuzzy_match(string[pos + 1:], like_name[1:])' in t for t in txt) if rec
+         else any(t == 'string = string[pos + 1:]' for t in txt) and any(t == 'like_name = like_name[1:]' for t in txt))
+    ok = step and any(t == 'return False' for t in txt)
     chk.ob('C04.f', ok, z, '_fuzzy_match finds the first character and matches the rest in the remainder (subsequence)')
-    base = [x for x in own_nodes(z) if isinstance(x, ast.If) and 'len(like_name) <= 1' in norm(x.test)]
-    ok = len(base) == 1 and norm(base[0].body[0]) == 'return like_name in string'
+    ok = any(t == 'return like_name in string' for t in txt) and \
+        any(isinstance(x, (ast.If, ast.While)) and norm(x.test) in ('len(like_name) <= 1', 'len(like_name) > 1') for x in ast.walk(z))
     chk.ob('C04.f', ok, z, 'base case: at most one character left -> containment')
+    chk.ob('C04.f', not rec, z, '_fuzzy_match is a loop: its stack depth does not grow with the length of the typed name (a 3000-character name '
+           'exhausted the interpreter stack: RecursionError from complete(fuzzy=True))', key='fuzzy-not-recursive')
 
 
 def rule_g(repo, chk):
